@@ -14,6 +14,7 @@ open ScVerif.Line
 structure HSys where
   s : Sys
   pay : Nat → Msg        -- payload of sender t's single event
+  icpt : Nat → Nat := id -- the collection's id interceptor
   nS : Nat
   want : Bool := false   -- the consumer is blocked in a receive
   sawClose : Bool := false
@@ -100,20 +101,31 @@ def ssettle : Nat → List HSys → List String → List HSys → List HSys
 def parseMsgs (s : String) : Option (List Msg) :=
   if s = "-" then some [] else (s.splitOn ",").mapM fun x => (parseNat? x).map fun id => (⟨id, false, 0⟩ : Msg)
 
-/-- `pinit hasEx exMerge hasPid target seedIds nS` -/
+/-- the closed family of named id interceptors shared with the harness (which numbers the spellings of item
+`k` as `4k … 4k+3`, the canonical one first) -/
+def parseIcpt? : String → Option (Nat → Nat)
+  | "none" => some id
+  | "fold4" => some fun n => n - n % 4
+  | _ => none
+
+/-- `pinit hasEx exMerge hasPid icpt rawTarget seedIds nS pre`: `rawTarget` is the id as the subscriber spells
+it, `seedIds` are stored ids; `pre` = the context is already cancelled when the subscription is made -/
 def sInit : List String → Option HSys
-  | [hasEx, exMerge, hasPid, target, seeds, nS] => do
+  | [hasEx, exMerge, hasPid, icpt, target, seeds, nS, pre] => do
     let hasEx ← parseBool? hasEx
     let exMerge ← parseBool? exMerge
     let hasPid ← parseBool? hasPid
+    let icpt ← parseIcpt? icpt
     let target ← parseNat? target
     let seeds ← parseMsgs seeds
     let nS ← parseNat? nS
-    let p : PConfig := { hasEx := hasEx, exMerge := exMerge, hasPid := hasPid, target := target, fixed := true,
-                         keep := fun _ => true, fwQ := seeds }
+    let pre ← parseBool? pre
+    let p : PConfig := { hasEx := hasEx, exMerge := exMerge, hasPid := hasPid, target := pullIDTarget icpt target,
+                         fixed := true, keep := fun _ => true, fwQ := seeds }
     let s0 : Sys := ⟨init fun _ => 1, fun _ => p⟩
-    let s1 := srun (fun _ => ⟨0, false, 0⟩) s0 [.bus (.lSpawn 0), .bus (.lRegister 0)]
-    some { s := s1, pay := fun _ => ⟨0, false, 0⟩, nS := nS }
+    let s1 := srun (fun _ => ⟨0, false, 0⟩) s0
+      ((if pre then [SMove.cancel 0] else []) ++ [.bus (.lSpawn 0), .bus (.lRegister 0)])
+    some { s := s1, pay := fun _ => ⟨0, false, 0⟩, icpt := icpt, nS := nS }
   | _ => none
 
 def sMacro (h : HSys) : List String → Option HSys
@@ -122,7 +134,7 @@ def sMacro (h : HSys) : List String → Option HSys
     let id ← parseNat? id
     let rm ← parseBool? rm
     let tag ← parseNat? tag
-    let h1 := { h with pay := upd h.pay t ⟨id, rm, tag⟩ }
+    let h1 := { h with pay := upd h.pay t (changeOf h.icpt id rm tag) }
     (sstep h1.payload h1.s (.bus (.sSnapshot t))).map fun s' => { h1 with s := s' }
   | ["recv"] =>
     if h.want ∨ h.sawClose then none else some (normalise { h with want := true })
